@@ -116,7 +116,9 @@ def run(prop, tier, seed, replay=None):
                 for k in range(nf):
                     Ts = [rnd.choice(trees) for _ in range(rnd.randint(2, 3))]
                     if k % 3 == 0:
-                        Ts = [treeio.random_tree(rnd, nmax=8, maxcons=6, labels=('A', 'B', 'NP'), tags=('T', 'A'), chain=0.3)
+                        # (every third treebank continuous: LoPar output; few labels and unary chains: X -> X)
+                        Ts = [treeio.random_tree(rnd, nmax=8, maxcons=6, labels=('A', 'B', 'NP'), tags=('T', 'A'), chain=0.5,
+                                                 disc=0.0 if k % 2 == 1 else 0.5)
                               for _ in range(rnd.randint(2, 3))]
                     bm = None if k % 2 == 0 else rnd.choice(ALL_MODES)
                     todo_files.append(('F-%05d' % k, Ts, bm, None, seed + k, False))
